@@ -256,7 +256,11 @@ impl Accept for UnixListener {
 
     fn poll_accept(self: Pin<&mut Self>, cx: &mut Context<'_>) -> Poll<io::Result<Self::Conn>> {
         UnixListener::poll_accept(self.get_mut(), cx).map(|res| {
-            res.and_then(|(stream, remote)| Ok(UnixStream::new(stream, Some(remote.try_into()?))))
+            // A peer address which can't be represented (a client bound to a path which
+            // isn't UTF-8) is not a reason to fail the listener: treat the peer as unnamed.
+            res.map(|(stream, remote)| {
+                UnixStream::new(stream, Some(remote.try_into().unwrap_or_default()))
+            })
         })
     }
 }
